@@ -5,6 +5,10 @@ ROOT = os.path.dirname(os.path.dirname(os.path.abspath(__file__)))
 
 # id -> (level, technique, level text, level note, design ref)
 CLAIMED = {
+ "C13": ("fault_enumeration", "runtime fault injection: bit flips / bursts inside page bodies located by an independent page walk, 10 access paths per fault, error-or-nothing oracle with clean-prefix comparison",
+         "For every enumerated (file, page, fault) point each of the 10 access paths (sequential rows, typed reader, chunk pages, seek into the page, seek then rows, seek past the dictionary, file-level column pages, value reader, async mode, re-encoding WriteRowGroup) ended with errors.Is(err, ErrCorrupted) before delivering anything that depends on the page, and what was delivered before equals the clean file. All single-bit positions are enumerated for bodies <= 16 bytes; larger bodies are sampled (first/last bit, PRNG bit, 2-32 bit bursts).",
+         "Page boundaries come from specreader's walk of the clean file. CRC-32 detects all single-bit errors and bursts <= 32 bits. Faults outside page bodies (headers, footer) are outside the statement.",
+         "DESIGN.md §4 C13"),
  "C05": ("exploration", "runtime monitoring: independent recomputation (specreader) of per-page/chunk min/max in the spec's sort orders, null counts and level histograms from the decoded bytes, compared with page-header, chunk and column-index statistics; three build/CPU variants",
          "Held on every explored file (except the recorded known finding F29): recorded min/max are true bounds of the non-null non-NaN values after truncation, null counts / null_pages / level histograms are exact, ASCENDING/DESCENDING claims hold over the recorded bounds, sorting metadata is only what was declared; statistics copied by the verbatim-copy path included; run on assembly, purego and AVX-disabled variants because min/max/order kernels differ. True bounds imply a pruning reader never skips a matching page. Sampling: exploration.",
          "NaN bounds count as absent; INT96 order undefined (ignored). Trusted: specreader decode and Leaf.Compare (spec sort orders).",
